@@ -50,9 +50,10 @@ func parseParams(s string) params {
 
 const maxBigDt = 2 // at most two time steps of days per history
 
-// quietBlocks: default blocks appended to full-length histories (two reward intervals + one cycle + 1:
-// everything credited in the history matures, a further cycle boundary is crossed).
-func (s *wspec) quietBlocks() int { return int(2*s.Interval + s.Cycle + 1) }
+// quietBlocks: default blocks appended to full-length histories (two reward intervals + 1: everything
+// credited in the history matures, and as 2*interval+1 > cycle at least one further cycle boundary is
+// crossed).
+func (s *wspec) quietBlocks() int { return int(2*s.Interval + 1) }
 
 // freshPull asks the REAL PullRewards of a brand-new RewardCumulativeStore (empty calculator cache, as
 // after a process start) what it pulls for block h on the committed state. The State object is a
@@ -347,10 +348,6 @@ func execHist(h []int, tier string, log *os.File) explore.BFSOut {
 						last = j
 					}
 				}
-				pos := "inside-cycle"
-				if int64(last)%s.Cycle == 0 {
-					pos = "at-cycle-first-block"
-				}
 				dist := "same-cycle"
 				if int64(i)/s.Cycle != int64(last)/s.Cycle {
 					dist = "later-cycle"
@@ -358,7 +355,7 @@ func execHist(h []int, tier string, log *os.File) explore.BFSOut {
 				if log != nil {
 					fmt.Fprintf(log, "  restart twin: app hash of block %d differs (restarted %x, uninterrupted %x)\n", i+1, main.hashes[i], twin.hashes[i])
 				}
-				m.violate("restart-divergence", fmt.Sprintf("op=restart|restart=%s|diverges=%s|%s", pos, dist, m.blockFacts[int64(i+1)]),
+				m.violate("restart-divergence", fmt.Sprintf("op=restart|diverges=%s|%s", dist, m.blockFacts[int64(i+1)]),
 					fmt.Sprintf("node restarted before block %d: app hash of block %d is %x, the uninterrupted node's is %x (first difference)", last+1, i+1, main.hashes[i], twin.hashes[i]))
 				break
 			}
